@@ -1,0 +1,50 @@
+//go:build verif
+
+package policy
+
+import (
+	"k8s.io/client-go/kubernetes"
+	corev1Lister "k8s.io/client-go/listers/core/v1"
+	networkingv1Lister "k8s.io/client-go/listers/networking/v1"
+	"k8s.io/client-go/tools/cache"
+	"tkestack.io/galaxy/pkg/utils/ipset"
+	utiliptables "tkestack.io/galaxy/pkg/utils/iptables"
+)
+
+// Verification hooks (build tag verif). Constructor taking the handles and listers, thin wrappers only.
+
+type verifSyncedInformer struct {
+	cache.SharedIndexInformer
+	synced bool
+}
+
+func (v *verifSyncedInformer) HasSynced() bool { return v.synced }
+
+// VerifNew builds a PolicyManager over the given ipset/iptables handles and listers. podsSynced tells whether the
+// (lazily started) pod informer counts as started and synced.
+func VerifNew(client kubernetes.Interface, ipsetHandle ipset.Interface, iptableHandle utiliptables.Interface,
+	hostName string, podLister corev1Lister.PodLister, nsLister corev1Lister.NamespaceLister,
+	policyLister networkingv1Lister.NetworkPolicyLister, podsSynced bool) *PolicyManager {
+	pm := &PolicyManager{
+		client:            client,
+		ipsetHandle:       ipsetHandle,
+		iptableHandle:     iptableHandle,
+		hostName:          hostName,
+		podLister:         podLister,
+		namespaceLister:   nsLister,
+		policyLister:      policyLister,
+		podCachedInformer: &verifSyncedInformer{synced: podsSynced},
+		quitChan:          make(chan struct{}),
+	}
+	pm.podInformerOnce.Do(func() {})
+	return pm
+}
+
+// VerifSyncNetworkPolices wraps syncNetworkPolices.
+func (p *PolicyManager) VerifSyncNetworkPolices() { p.syncNetworkPolices() }
+
+// VerifSyncNetworkPolicyRules wraps syncNetworkPolicyRules.
+func (p *PolicyManager) VerifSyncNetworkPolicyRules() { p.syncNetworkPolicyRules() }
+
+// VerifSyncPods wraps syncPods.
+func (p *PolicyManager) VerifSyncPods() { p.syncPods() }
